@@ -49,6 +49,9 @@ pub unsafe fn dealloc_stub(ptr: *mut u8, layout: Layout) {
     __rust_dealloc(ptr, layout.size(), layout.align())
 }
 
+pub fn const_quarter(_x: f64) -> f64 {
+    0.25
+}
 fn steady() {
     unsafe { STEADY = true }
 }
@@ -394,14 +397,20 @@ pub mod api {
     });
 
     noalloc_harness!(
-        /// rate conversion with every interpolator, and mul_hz
+        /// rate conversion with every interpolator, and mul_hz (libm's sin / cos are replaced by
+        /// constants: they are leaf calls into libm, not dasp code, and their values cannot influence
+        /// which allocator calls are reachable)
+        #[kani::stub(dasp_interpolate::sinc::ops::f64::sin, crate::c07_noalloc::const_quarter)]
+        #[kani::stub(dasp_interpolate::sinc::ops::f64::cos, crate::c07_noalloc::const_quarter)]
         rate_conversion, 10, {
         use dasp_interpolate::{floor::Floor, linear::Linear, sinc::Sinc};
-        let mk = || -> Probe<f64, 6> { Probe::new([0.5, -0.25, 0.125, 0.0, 1.0, -1.0], 6) };
-        let ratio: f64 = match kani::any::<u8>() % 4 { 0 => 0.5, 1 => 1.0, 2 => 1.5, _ => 3.0 };
-        let mut cf = mk().scale_hz(Floor::new(0.0), ratio);
-        let mut cl = mk().from_hz_to_hz(Linear::new(0.0, 0.0), 2.0, 4.0 / ratio);
-        let mut cs = mk().scale_hz(Sinc::new(Fixed::from([0.0f64; 4])), ratio);
+        let len: usize = kani::any();
+        kani::assume(len <= 6);
+        let mk = || -> Probe<f64, 6> { Probe::new([0.5, -0.25, 0.125, 0.0, 1.0, -1.0], len) };
+        // concrete ratios (up-, down-sampling and a non-dyadic one); the source length is symbolic
+        let mut cf = mk().scale_hz(Floor::new(0.0), 3.0);
+        let mut cl = mk().from_hz_to_hz(Linear::new(0.0, 0.0), 2.0, 3.0);
+        let mut cs = mk().scale_hz(Sinc::new(Fixed::from([0.0f64; 4])), 0.75);
         let mut mh = mk().mul_hz(Linear::new(0.0, 0.0), signal::gen(|| 0.75f64));
         steady();
         for _ in 0..3 {
